@@ -480,7 +480,9 @@ func (vc *VC) refTerms(term string, t types.Type, depth int) []string {
 	case *types.Slice:
 		return []string{"(+ (sptr " + term + ") (scap " + term + "))"}
 	case *types.Interface:
-		return nil
+		// an interface value holding a pointer, a boxed struct or a slice refers
+		// to memory as well; any_ref yields that address (0 for scalars)
+		return []string{"(any_ref " + term + ")"}
 	case *types.Struct:
 		si := vc.u.structOf(t)
 		if si == nil {
